@@ -160,7 +160,9 @@ package diam
 //@ func (*AVP).SerializeTo(a, b) (err)
 //@   property C01 C02 C03
 //@   requires a != nil
-//@   requires room: a.Data != nil ==> deepvalid(a.Data) && len(b) >= avplen(a) && dlen(a.Data) >= 0 && dlen(a.Data) < (1<<24) - 12
+//@   requires valid_data: a.Data != nil ==> deepvalid(a.Data)
+//@   requires room: a.Data != nil ==> len(b) >= avplen(a)
+//@   requires fits_24_bits: a.Data != nil ==> dlen(a.Data) >= 0 && dlen(a.Data) < (1<<24) - 12
 //@   requires separate: a.Data != nil ==> !viewsInto(a.Data, b)
 //@   modifies b[0:avplen(a)]
 //@   ensures nodata: a.Data == nil <==> err != nil
@@ -515,11 +517,12 @@ package diam
 //@ spec serialisable(m *Message) bool = m != nil && m.Header != nil && wf(m.AVP) && len(m.AVP) < 1<<16 &&
 //@      sumlen(m.AVP, len(m.AVP)) >= 0 && sumlen(m.AVP, len(m.AVP)) < (1<<24) - 20
 //@
-//@ # NOT VERIFIED: the precondition of AVP.SerializeTo at the call in the loop (room for the AVP, from the partial sums)
-//@ # was not decided by any solver within the thorough budget. The contract below is therefore ASSUMED at its call
-//@ # sites (trusted) and listed as such in the evidence; the loop annotations are kept for a later attempt.
+//@ # Verified (it was assumed until the lemma sumlen.elem - every element's padded length lies between its header and
+//@ # the total, its payload length is non-negative - was stated; like sumlen.nonneg / mono it is a consequence by
+//@ # induction that is not itself machine-checked and is listed as such). Three of its obligations need 8-9 s, too close
+//@ # to the quick budget of 10 s: the function is discharged in the thorough tier and assumed in the quick one.
 //@ func (*Message).SerializeTo(m, b) (err)
-//@   trusted
+//@   tier thorough
 //@   requires serialisable(m) && len(b) >= 20 + sumlen(m.AVP, len(m.AVP))
 //@   assume destination_is_separate: apart(m.AVP, b)
 //@   hint wf.def(m.AVP)
@@ -538,6 +541,7 @@ package diam
 //@     hint sumlen.mono(m.AVP, rangeindex + 2, len(m.AVP))
 //@     hint sumlen.mono(m.AVP, rangeindex + 1, len(m.AVP))
 //@     hint sumlen.nonneg(m.AVP, rangeindex + 1)
+//@     hint sumlen.elem(m.AVP, rangeindex + 1)
 //@     hint wf.def(m.AVP[rangeindex + 1].Data.(*GroupedAVP).AVP)
 //@     hint sumlen.nonneg(m.AVP[rangeindex + 1].Data.(*GroupedAVP).AVP, len(m.AVP[rangeindex + 1].Data.(*GroupedAVP).AVP))
 //@   end
